@@ -252,3 +252,378 @@ Theorem C07_hist_step_kind : forall (HO : hops), hash_ok HO ->
   ob_k (snd (hist_step HO st o)) = ob_k (snd st).
 Proof. exact hist_step_kind. Qed.
 Print Assumptions C07_hist_step_kind.
+
+(* ======== Gap audit H (proofs in Proofs/GapHNodes.v, GapHFrame.v, GapHVal.v, GapHShort.v, GapHFault.v) ========
+   (c) the frame of a history as an explicit theorem, relative to an ARBITRARY initial content (InvR);
+   (e) convergence of histories with failed / truncated / corrupted steps in the middle;
+   (d) the OUTBOARD-only validators, sync and fsm, in the states of a history;
+   (a) io-backed sinks that are NOT pre-sized (and targets of any length): what is kept, what the validators say,
+       and a witness that the 'pre-sized' premise is needed for the sync validators;
+   (b) failing sink calls on the honest stream: exactly which items are applied before the failure. *)
+From BaoV Require Import Model.IO Model.Sync Model.Fsm Spec.RangeSpec Spec.NodeSpec Spec.EncSpec Spec.HashAssm.
+From BaoV Require Import Proofs.DecForest Proofs.DecRanges Proofs.ValSpec Proofs.ValPath Proofs.ValTop Proofs.ValSound
+  Proofs.HistOb Proofs.HistEnc Proofs.HistInv Proofs.HistStep Proofs.FinalStore Proofs.GapTarget Proofs.GapValFsmView
+  Proofs.GapHNodes Proofs.GapHFrame Proofs.GapHVal Proofs.GapHShort Proofs.GapHFault Proofs.GapHExtra.
+Local Open Scope N_scope.
+
+(* ---- (c) the frame, relative to any initial state ----
+   InvR t0 ob0 D P (t, ob): D = the chunks delivered so far, P = the nodes whose pair has been saved so far *)
+
+Theorem C07_InvR_def : forall (HO : hops) (data : bytes HO) (bs : N) (t0 : bytes HO) (ob0 : outboard HO)
+  (D P : N -> bool) (st : bytes HO * outboard HO),
+  InvR HO data bs t0 ob0 D P st <->
+  (length (fst st) = length data /\
+   (forall c, c < nchunks (blen HO data) ->
+      chunk_bytes HO (fst st) c (c + 1) = if D c then chunk_bytes HO data c (c + 1) else chunk_bytes HO t0 c (c + 1)) /\
+   ob_sized HO (snd st) (blen HO data) bs /\
+   ob_root (snd st) = root_hash HO data /\
+   ob_k (snd st) = ob_k ob0 /\
+   (forall nd, pnode (blen HO data) bs nd ->
+      stored_pair HO (snd st) nd = if P nd then Some (true_pair HO data nd) else stored_pair HO ob0 nd) /\
+   (forall c, c < nchunks (blen HO data) -> D c = true ->
+      forall nd rt, In (nd, rt) (top_path (blen HO data) bs (c / 2 ^ bs)) -> P nd = true)).
+Proof. exact gaph_InvR_def. Qed.
+Print Assumptions C07_InvR_def.
+
+(* saved ys nd: nd is the node of a parent item of ys *)
+Theorem C07_saved_def : forall (HO : hops) (ys : list (item HO)) (nd : N),
+  saved HO ys nd = true <-> exists l r, In (IParent nd l r) ys.
+Proof. exact gaph_saved_def. Qed.
+Print Assumptions C07_saved_def.
+
+(* any target of the blob's length and any pre-sized outboard carrying the blob's root, whatever their bytes *)
+Theorem C07_InvR_init : forall (HO : hops) (data : bytes HO) (bs : N) (t0 : bytes HO) (ob0 : outboard HO),
+  length t0 = length data -> ob_sized HO ob0 (blen HO data) bs -> ob_root ob0 = root_hash HO data ->
+  InvR HO data bs t0 ob0 (fun _ => false) (fun _ => false) (t0, ob0).
+Proof. exact gaph_InvR_init. Qed.
+Print Assumptions C07_InvR_init.
+
+(* a step of a history (any stream, any sink fault plan, sync or fsm): no byte of the target outside the chunks of the written leaves changes, no slot other than those of the saved nodes changes, and the changed ones hold the blob's bytes / pairs *)
+Theorem C07_InvR_step : forall (HO : hops), hash_ok HO ->
+  forall (data : bytes HO) (bs : N), blen HO data <= 2 ^ 63 -> bs <= 10 ->
+  forall (t0 : bytes HO) (ob0 : outboard HO) (D P : N -> bool) (st : bytes HO * outboard HO) (o : op HO),
+  wf_ranges (op_q HO o) = true -> InvR HO data bs t0 ob0 D P st ->
+  exists ys, is_prefix ys (honest HO data bs (op_q HO o)) /\
+    InvR HO data bs t0 ob0 (fun c => D c || delivered HO ys c) (fun nd => P nd || saved HO ys nd) (hist_step HO st o).
+Proof. exact gaph_InvR_step. Qed.
+Print Assumptions C07_InvR_step.
+
+Theorem C07_InvR_history : forall (HO : hops), hash_ok HO ->
+  forall (data : bytes HO) (bs : N), blen HO data <= 2 ^ 63 -> bs <= 10 ->
+  forall (t0 : bytes HO) (ob0 : outboard HO) (ops : list (op HO)),
+  Forall (fun o => wf_ranges (op_q HO o) = true) ops ->
+  forall (D P : N -> bool) (st : bytes HO * outboard HO), InvR HO data bs t0 ob0 D P st ->
+  exists D' P', InvR HO data bs t0 ob0 D' P' (fold_left (hist_step HO) ops st) /\
+    (forall c, D c = true -> D' c = true) /\ (forall nd, P nd = true -> P' nd = true).
+Proof. exact gaph_InvR_history. Qed.
+Print Assumptions C07_InvR_history.
+
+(* parents are saved before the leaves below them: in any prefix of the honest encoding, every node on the path of the group of a delivered chunk is the node of a parent item of the prefix *)
+Theorem C07_path_saved : forall (HO : hops), hash_ok HO ->
+  forall (data : bytes HO) (bs : N), blen HO data <= 2 ^ 63 -> bs <= 10 ->
+  forall (q : ranges) (ys : list (item HO)) (c nd : N) (rt : bool),
+  wf_ranges q = true -> is_prefix ys (honest HO data bs q) -> delivered HO ys c = true ->
+  In (nd, rt) (top_path (blen HO data) bs (c / 2 ^ bs)) -> saved HO ys nd = true.
+Proof. exact gaph_path_saved. Qed.
+Print Assumptions C07_path_saved.
+
+(* the bytes of the slot of a node that was never saved are those of the initial store (every slot index below blocks - 1 is the offset of a persisted node: C12_pre_offsets / C12_post_offsets) *)
+Theorem C07_InvR_slot_bytes : forall (HO : hops) (data : bytes HO) (bs : N), blen HO data <= 2 ^ 63 -> bs <= 10 ->
+  forall (t0 : bytes HO) (ob0 : outboard HO) (D P : N -> bool) (st : bytes HO * outboard HO) (nd : N),
+  InvR HO data bs t0 ob0 D P st -> ob_sized HO ob0 (blen HO data) bs ->
+  pnode (blen HO data) bs nd -> P nd = false ->
+  exists o, ob_offset HO (snd st) nd = Some o /\ ob_offset HO ob0 nd = Some o /\ o < sp_blocks (blen HO data) bs - 1 /\
+            slice HO (o * 64) 64 (ob_data (snd st)) = slice HO (o * 64) 64 (ob_data ob0).
+Proof. exact gaph_InvR_slot_bytes. Qed.
+Print Assumptions C07_InvR_slot_bytes.
+
+(* the invariant Inv of this file is the instance for the all-zero initial state *)
+Theorem C07_InvR_zero_Inv : forall (HO : hops) (data : bytes HO) (bs : N), blen HO data <= 2 ^ 63 -> bs <= 10 ->
+  forall k D P st, hist_kind k ->
+  InvR HO data bs (init_target HO data) (init_ob HO data bs k) D P st -> Inv HO data bs D st.
+Proof. exact gaph_InvR_zero_Inv. Qed.
+Print Assumptions C07_InvR_zero_Inv.
+
+(* convergence from any initial content *)
+Theorem C07_InvR_converges : forall (HO : hops), hash_ok HO ->
+  forall (data : bytes HO) (bs : N), blen HO data <= 2 ^ 63 -> bs <= 10 ->
+  forall (t0 : bytes HO) (ob0 : outboard HO) (D P : N -> bool) (st : bytes HO * outboard HO),
+  InvR HO data bs t0 ob0 D P st -> hist_kind (ob_k ob0) ->
+  (forall c, c < nchunks (blen HO data) -> D c = true) ->
+  fst st = data /\ created_store HO data bs (snd st).
+Proof. exact gaph_InvR_converges. Qed.
+Print Assumptions C07_InvR_converges.
+
+Theorem C07_converges_any_init : forall (HO : hops), hash_ok HO ->
+  forall (data : bytes HO) (bs : N), blen HO data <= 2 ^ 63 -> bs <= 10 ->
+  forall (t0 : bytes HO) (ob0 : outboard HO),
+  length t0 = length data -> ob_sized HO ob0 (blen HO data) bs -> ob_root ob0 = root_hash HO data ->
+  forall ops : list (op HO), Forall (fun o => wf_ranges (op_q HO o) = true) ops ->
+  exists D' P', InvR HO data bs t0 ob0 D' P' (fold_left (hist_step HO) ops (t0, ob0)) /\
+    ((forall c, c < nchunks (blen HO data) -> D' c = true) ->
+     fst (fold_left (hist_step HO) ops (t0, ob0)) = data /\
+     created_store HO data bs (snd (fold_left (hist_step HO) ops (t0, ob0)))).
+Proof. exact gaph_converges_any_init. Qed.
+Print Assumptions C07_converges_any_init.
+
+(* ---- (e) faults in the middle ---- *)
+
+(* failed, truncated and corrupted steps may be interleaved at will with good ones (honest stream, no sink fault); if the good ones select every chunk between them the final state is the blob and its created store *)
+Theorem C07_converges_with_faults : forall (HO : hops), hash_ok HO ->
+  forall (data : bytes HO) (bs : N), blen HO data <= 2 ^ 63 -> bs <= 10 ->
+  forall k, hist_kind k ->
+  forall ops : list (op HO), Forall (fun o => wf_ranges (op_q HO o) = true) ops ->
+  (forall c, c < nchunks (blen HO data) ->
+     exists o, In o ops /\ op_sf HO o = no_faults /\
+       (exists rest, op_enc HO o = flat HO (honest HO data bs (op_q HO o)) ++ rest) /\
+       sel (op_q HO o) (blen HO data) c = true) ->
+  fst (fold_left (hist_step HO) ops (init_target HO data, init_ob HO data bs k)) = data /\
+  created_store HO data bs (snd (fold_left (hist_step HO) ops (init_target HO data, init_ob HO data bs k))) /\
+  ob_k (snd (fold_left (hist_step HO) ops (init_target HO data, init_ob HO data bs k))) = k.
+Proof. exact gaph_converges_with_faults. Qed.
+Print Assumptions C07_converges_with_faults.
+
+Theorem C07_converges_with_faults_nonvacuous :
+  exists (HO : hops) (data : bytes HO) (bs : N) (k : ob_kind) (ops : list (op HO)),
+    hash_ok HO /\ blen HO data <= 2 ^ 63 /\ bs <= 10 /\ hist_kind k /\ length ops = 2%nat /\
+    Forall (fun o => wf_ranges (op_q HO o) = true) ops /\
+    (exists o, In o ops /\ op_sf HO o <> no_faults) /\
+    (forall c, c < nchunks (blen HO data) ->
+       exists o, In o ops /\ op_sf HO o = no_faults /\
+         (exists rest, op_enc HO o = flat HO (honest HO data bs (op_q HO o)) ++ rest) /\
+         sel (op_q HO o) (blen HO data) c = true).
+Proof. exact gaph_converges_with_faults_nonvacuous. Qed.
+Print Assumptions C07_converges_with_faults_nonvacuous.
+
+(* ---- (d) the outboard-only validators ---- *)
+
+(* in every state of a history (any initial content): valid_outboard_ranges and its fsm twin agree, end with Ok, report exactly the touched groups whose whole path holds the blob's pairs, among them every touched group with a delivered chunk *)
+Theorem C07_obval_reported : forall (HO : hops), hash_ok HO ->
+  forall (data : bytes HO) (bs : N), blen HO data <= 2 ^ 63 -> bs <= 10 ->
+  forall (t0 : bytes HO) (ob0 : outboard HO) (D P : N -> bool) (t : bytes HO) (ob : outboard HO) (q : ranges),
+  InvR HO data bs t0 ob0 D P (t, ob) -> 2 <= sp_blocks (blen HO data) bs -> wf_ranges q = true ->
+  valid_outboard_ranges_fsm HO ob q = valid_outboard_ranges HO ob q /\
+  snd (valid_outboard_ranges HO ob q) = Ok tt /\
+  (forall a e, In (a, e) (fst (valid_outboard_ranges HO ob q)) <->
+     exists ga, ga < sp_blocks (blen HO data) bs /\ a = grp_start bs ga /\ e = grp_end (blen HO data) bs ga /\
+                touched q (blen HO data) bs ga /\ path_true HO data bs ob ga) /\
+  (forall c, c < nchunks (blen HO data) -> D c = true -> touched q (blen HO data) bs (c / 2 ^ bs) ->
+     In (grp_start bs (c / 2 ^ bs), grp_end (blen HO data) bs (c / 2 ^ bs)) (fst (valid_outboard_ranges HO ob q))).
+Proof. exact gaph_obval_reported. Qed.
+Print Assumptions C07_obval_reported.
+
+Theorem C07_pairs_nondegenerate_def : forall (HO : hops) (data : bytes HO) (bs : N),
+  pairs_nondegenerate HO data bs <->
+  (forall nd, pnode (blen HO data) bs nd -> true_pair HO data nd <> zero_pair HO).
+Proof. exact gaph_pairs_nondegenerate_def. Qed.
+Print Assumptions C07_pairs_nondegenerate_def.
+
+(* from the all-zero initial state, when no pair of the blob is the zero pair: exactly the touched groups all of whose path nodes have been saved (a superset of the groups with a delivered chunk: a stream cut between a parent and the leaf below it saves the pair without delivering the chunk) *)
+Theorem C07_obval_exact_zero : forall (HO : hops), hash_ok HO ->
+  forall (data : bytes HO) (bs : N), blen HO data <= 2 ^ 63 -> bs <= 10 ->
+  forall k (D P : N -> bool) (t : bytes HO) (ob : outboard HO) (q : ranges), hist_kind k ->
+  InvR HO data bs (init_target HO data) (init_ob HO data bs k) D P (t, ob) ->
+  pairs_nondegenerate HO data bs -> 2 <= sp_blocks (blen HO data) bs -> wf_ranges q = true ->
+  valid_outboard_ranges HO ob q =
+  (flat_map (fun ga => if touchedb q (blen HO data) bs ga && forallb P (map fst (top_path (blen HO data) bs ga))
+                       then [(grp_start bs ga, grp_end (blen HO data) bs ga)] else [])
+            (chunk_range_list 0 (sp_blocks (blen HO data) bs)), Ok tt) /\
+  valid_outboard_ranges_fsm HO ob q = valid_outboard_ranges HO ob q /\
+  (forall c, c < nchunks (blen HO data) -> D c = true ->
+     forallb P (map fst (top_path (blen HO data) bs (c / 2 ^ bs))) = true).
+Proof. exact gaph_obval_exact_zero. Qed.
+Print Assumptions C07_obval_exact_zero.
+
+Theorem C07_obval_nonvacuous :
+  exists (HO : hops) (data : bytes HO) (bs : N) (k : ob_kind) (q : ranges),
+    hash_ok HO /\ blen HO data <= 2 ^ 63 /\ bs <= 10 /\ hist_kind k /\
+    InvR HO data bs (init_target HO data) (init_ob HO data bs k) (fun _ => false) (fun _ => false)
+         (init_target HO data, init_ob HO data bs k) /\
+    pairs_nondegenerate HO data bs /\ sp_blocks (blen HO data) bs = 3 /\ wf_ranges q = true.
+Proof. exact gaph_obval_nonvacuous. Qed.
+Print Assumptions C07_obval_nonvacuous.
+
+(* the DATA validators on a single-group blob (C07_validator_exact needs two groups): the blob is reported iff every chunk is delivered, whatever the query (with one group the crate's validators do not look at the query: C06_data_single); the outboard-only validators then always report the blob (C06_outboard_single: no pair to check) *)
+Theorem C07_validator_exact_single : forall (HO : hops), hash_ok HO ->
+  forall (data : bytes HO) (bs : N), blen HO data <= 2 ^ 63 -> bs <= 10 ->
+  forall D (t : bytes HO) (ob : outboard HO) q,
+  Inv HO data bs D (t, ob) -> nondegenerate HO data -> sp_blocks (blen HO data) bs = 1 ->
+  valid_ranges HO ob t q =
+    ((if forallb D (chunk_range_list 0 (nchunks (blen HO data))) then [(0, chunks (blen HO data))] else []), Ok tt) /\
+  valid_ranges_fsm HO ob t q = valid_ranges HO ob t q.
+Proof. exact val_exact_single. Qed.
+Print Assumptions C07_validator_exact_single.
+
+Theorem C07_validator_exact_single_nonvacuous :
+  exists (HO : hops) (data : bytes HO) (bs : N) (k : ob_kind),
+    hash_ok HO /\ blen HO data <= 2 ^ 63 /\ bs <= 10 /\ hist_kind k /\
+    Inv HO data bs (fun _ => false) (init_target HO data, init_ob HO data bs k) /\
+    nondegenerate HO data /\ sp_blocks (blen HO data) bs = 1 /\ nchunks (blen HO data) = 2.
+Proof. exact val_exact_single_nonvacuous. Qed.
+Print Assumptions C07_validator_exact_single_nonvacuous.
+
+(* ---- (a) sinks that are not pre-sized ----
+   pad (Props/C01.v, C01_pad_def); is_io k = true for PreIO / PostIO (Props/C06.v, C06_is_io_def) *)
+
+Theorem C07_short_defs : forall (HO : hops) (data : bytes HO) (bs : N) (D : N -> bool) (st : bytes HO * outboard HO),
+  (forall ob : outboard HO,
+     ob_pad HO data bs ob =
+     mkOb (ob_k ob) (ob_root ob) (ob_tree ob) (pad HO (N.to_nat ((sp_blocks (blen HO data) bs - 1) * 64)) (ob_data ob))) /\
+  pad_state HO data bs st = (pad HO (length data) (fst st), ob_pad HO data bs (snd st)) /\
+  (ShortInv HO data bs D st <->
+   is_io (ob_k (snd st)) = true /\ blen HO (ob_data (snd st)) mod 64 = 0 /\ Inv HO data bs D (pad_state HO data bs st)).
+Proof. exact gaph_short_defs. Qed.
+Print Assumptions C07_short_defs.
+
+Theorem C07_short_pad_id : forall (HO : hops) (data : bytes HO) (bs : N), blen HO data <= 2 ^ 63 -> bs <= 10 ->
+  forall ob : outboard HO, ob_sized HO ob (blen HO data) bs -> ob_pad HO data bs ob = ob.
+Proof. exact gaph_short_pad_id. Qed.
+Print Assumptions C07_short_pad_id.
+
+(* an empty (or all-zero, whole-slot) io-backed outboard file and an empty (or all-zero) data file *)
+Theorem C07_short_init : forall (HO : hops) (data : bytes HO) (bs : N), blen HO data <= 2 ^ 63 -> bs <= 10 ->
+  forall (k : ob_kind) (a j : nat), is_io k = true ->
+  ShortInv HO data bs (fun _ => false)
+    (zeros HO a, mkOb k (root_hash HO data) (mkTree (blen HO data) bs) (zeros HO (64 * j))).
+Proof. exact gaph_short_init. Qed.
+Print Assumptions C07_short_init.
+
+(* every step keeps ShortInv, touches nothing beyond the first (blocks - 1) * 64 bytes of the store and the first |blob| bytes of the target, and never shrinks either *)
+Theorem C07_short_step : forall (HO : hops), hash_ok HO ->
+  forall (data : bytes HO) (bs : N), blen HO data <= 2 ^ 63 -> bs <= 10 ->
+  forall (D : N -> bool) (st : bytes HO * outboard HO) (o : op HO),
+  wf_ranges (op_q HO o) = true -> ShortInv HO data bs D st ->
+  exists ys, is_prefix ys (honest HO data bs (op_q HO o)) /\
+    ShortInv HO data bs (fun c => D c || delivered HO ys c) (hist_step HO st o) /\
+    skipn (N.to_nat ((sp_blocks (blen HO data) bs - 1) * 64)) (ob_data (snd (hist_step HO st o))) =
+      skipn (N.to_nat ((sp_blocks (blen HO data) bs - 1) * 64)) (ob_data (snd st)) /\
+    skipn (length data) (fst (hist_step HO st o)) = skipn (length data) (fst st) /\
+    blen HO (ob_data (snd st)) <= blen HO (ob_data (snd (hist_step HO st o))) /\
+    (length (fst st) <= length (fst (hist_step HO st o)))%nat.
+Proof. exact gaph_short_step. Qed.
+Print Assumptions C07_short_step.
+
+Theorem C07_short_history : forall (HO : hops), hash_ok HO ->
+  forall (data : bytes HO) (bs : N), blen HO data <= 2 ^ 63 -> bs <= 10 ->
+  forall ops : list (op HO), Forall (fun o => wf_ranges (op_q HO o) = true) ops ->
+  forall (D : N -> bool) (st : bytes HO * outboard HO), ShortInv HO data bs D st ->
+  exists D', ShortInv HO data bs D' (fold_left (hist_step HO) ops st) /\ (forall c, D c = true -> D' c = true) /\
+    skipn (N.to_nat ((sp_blocks (blen HO data) bs - 1) * 64)) (ob_data (snd (fold_left (hist_step HO) ops st))) =
+      skipn (N.to_nat ((sp_blocks (blen HO data) bs - 1) * 64)) (ob_data (snd st)) /\
+    skipn (length data) (fst (fold_left (hist_step HO) ops st)) = skipn (length data) (fst st).
+Proof. exact gaph_short_history. Qed.
+Print Assumptions C07_short_history.
+
+(* the FSM validators on such a state (target of the blob's length) are the sync validators on the padded store, hence report exactly the fully delivered groups *)
+Theorem C07_short_validator_fsm : forall (HO : hops), hash_ok HO ->
+  forall (data : bytes HO) (bs : N), blen HO data <= 2 ^ 63 -> bs <= 10 ->
+  forall (D : N -> bool) (t : bytes HO) (ob : outboard HO) (q : ranges),
+  ShortInv HO data bs D (t, ob) -> length t = length data ->
+  (valid_ranges_fsm HO ob t q = valid_ranges HO (ob_pad HO data bs ob) t q /\
+   valid_outboard_ranges_fsm HO ob q = valid_outboard_ranges HO (ob_pad HO data bs ob) q) /\
+  (nondegenerate HO data -> 2 <= sp_blocks (blen HO data) bs -> wf_ranges q = true ->
+   valid_ranges_fsm HO ob t q =
+   (flat_map (fun ga => if touchedb q (blen HO data) bs ga && grp_full HO data bs D ga
+                        then [(grp_start bs ga, grp_end (blen HO data) bs ga)] else [])
+             (chunk_range_list 0 (sp_blocks (blen HO data) bs)), Ok tt)).
+Proof. exact gaph_short_validator_fsm. Qed.
+Print Assumptions C07_short_validator_fsm.
+
+Theorem C07_short_converges : forall (HO : hops), hash_ok HO ->
+  forall (data : bytes HO) (bs : N), blen HO data <= 2 ^ 63 -> bs <= 10 ->
+  forall (D : N -> bool) (st : bytes HO * outboard HO),
+  ShortInv HO data bs D st -> (forall c, c < nchunks (blen HO data) -> D c = true) ->
+  pad HO (length data) (fst st) = data /\ created_store HO data bs (ob_pad HO data bs (snd st)).
+Proof. exact gaph_short_converges. Qed.
+Print Assumptions C07_short_converges.
+
+(* the 'pre-sized' premise is needed for the SYNC validators: after one fault-free decode of the last chunk into a pre-sized target and an EMPTY PreOrderOutboard file (3 chunks, block size 0) the store holds 64 of its 128 bytes; valid_ranges and valid_outboard_ranges stop with UnexpectedEof and report nothing, the fsm twins report exactly the delivered chunk (finding F9 reached through the crate's own decoder) *)
+Theorem C07_unsized_sync_validator_refuted :
+  exists (HO : hops) (data : bytes HO) (bs : N) (ob0 : outboard HO) (o : op HO),
+    hash_ok HO /\ blen HO data <= 2 ^ 63 /\ bs <= 10 /\ nondegenerate HO data /\ sp_blocks (blen HO data) bs = 3 /\
+    ob0 = mkOb PreIO (root_hash HO data) (mkTree (blen HO data) bs) [] /\
+    wf_ranges (op_q HO o) = true /\ op_sf HO o = no_faults /\
+    op_enc HO o = flat HO (honest HO data bs (op_q HO o)) /\
+    let st := hist_step HO (init_target HO data, ob0) o in
+    (exists D, ShortInv HO data bs D st) /\
+    length (fst st) = length data /\ blen HO (ob_data (snd st)) = 64 /\
+    valid_ranges HO (snd st) (fst st) [0] = ([], Err KUnexpectedEof) /\
+    valid_outboard_ranges HO (snd st) [0] = ([], Err KUnexpectedEof) /\
+    valid_ranges_fsm HO (snd st) (fst st) [0] = ([(2, 3)], Ok tt) /\
+    valid_outboard_ranges_fsm HO (snd st) [0] = ([(2, 3)], Ok tt).
+Proof. exact gaph_unsized_sync_validator_refuted. Qed.
+Print Assumptions C07_unsized_sync_validator_refuted.
+
+(* ---- (b) failing sink calls on the honest stream ---- *)
+
+(* fault_cut sf ys nw ns = (the items applied before the first sink call that sf makes fail, whether one is reached) *)
+Theorem C07_fault_cut_def : forall (HO : hops) (sf : sink_faults) (nw ns : N),
+  fault_cut HO sf [] nw ns = ([], false) /\
+  (forall nd l r ys, fault_cut HO sf (IParent nd l r :: ys) nw ns =
+     if hits (sf_save sf) ns then ([], true)
+     else (IParent nd l r :: fst (fault_cut HO sf ys nw (ns + 1)), snd (fault_cut HO sf ys nw (ns + 1)))) /\
+  (forall off d ys, fault_cut HO sf (ILeaf off d :: ys) nw ns =
+     if hits (sf_target sf) nw then ([], true)
+     else (ILeaf off d :: fst (fault_cut HO sf ys (nw + 1) ns), snd (fault_cut HO sf ys (nw + 1) ns))).
+Proof. exact gaph_fault_cut_def. Qed.
+Print Assumptions C07_fault_cut_def.
+
+Theorem C07_counts_def : forall (HO : hops) (ys : list (item HO)),
+  n_leaves HO ys = N.of_nat (length (filter (fun it => match it with ILeaf _ _ => true | _ => false end) ys)) /\
+  n_parents HO ys = N.of_nat (length (filter (fun it => match it with IParent _ _ _ => true | _ => false end) ys)).
+Proof. exact gaph_counts_def. Qed.
+Print Assumptions C07_counts_def.
+
+(* no fault: everything; always a prefix; the j-th target write fails: the cut is just before leaf number j; the j-th save fails: just before parent number j *)
+Theorem C07_fault_cut_facts : forall (HO : hops) (ys : list (item HO)),
+  fault_cut HO no_faults ys 0 0 = (ys, false) /\
+  (forall sf, is_prefix (fst (fault_cut HO sf ys 0 0)) ys) /\
+  (forall j kind, let p := fault_cut HO (mkSF (Some j) None kind) ys 0 0 in
+     (snd p = true -> exists off d rest, ys = fst p ++ ILeaf off d :: rest /\ n_leaves HO (fst p) = j) /\
+     (snd p = false -> fst p = ys /\ n_leaves HO ys <= j)) /\
+  (forall j kind, let p := fault_cut HO (mkSF None (Some j) kind) ys 0 0 in
+     (snd p = true -> exists nd l r rest, ys = fst p ++ IParent nd l r :: rest /\ n_parents HO (fst p) = j) /\
+     (snd p = false -> fst p = ys /\ n_parents HO ys <= j)).
+Proof. exact gaph_fault_cut_facts. Qed.
+Print Assumptions C07_fault_cut_facts.
+
+(* both drivers on the honest stream of any well-formed query under any sink fault plan: exactly fst (fault_cut ..) is applied; Err (DIo kind) if a failing call is reached, Ok with the reader at the end of the encoding otherwise *)
+Theorem C07_fault_exact : forall (HO : hops), hash_ok HO ->
+  forall (data : bytes HO) (bs : N) (q : ranges), blen HO data <= 2 ^ 63 -> bs <= 10 -> wf_ranges q = true ->
+  forall (sf : sink_faults) (rest t : bytes HO) (ob : outboard HO) (t' : bytes HO) (ob' : outboard HO),
+  ob_root ob = root_hash HO data -> ob_tree ob = mkTree (blen HO data) bs ->
+  apply_items HO (fst (fault_cut HO sf (honest HO data bs q) 0 0)) t ob = (SOk, t', ob') ->
+  (exists st', decode_ranges_f HO sf (flat HO (honest HO data bs q) ++ rest) q t ob =
+     ((if snd (fault_cut HO sf (honest HO data bs q) 0 0) then Err (DIo (sf_kind sf)) else Ok tt), t', ob', st') /\
+     (snd (fault_cut HO sf (honest HO data bs q) 0 0) = false -> d_enc HO st' = rest)) /\
+  (exists st', decode_ranges_fsm_f HO sf (flat HO (honest HO data bs q) ++ rest) q t ob =
+     ((if snd (fault_cut HO sf (honest HO data bs q) 0 0) then Err (DIo (sf_kind sf)) else Ok tt), t', ob', st') /\
+     (snd (fault_cut HO sf (honest HO data bs q) 0 0) = false -> Fsm.r_enc HO st' = rest)).
+Proof. exact gaph_fault_exact. Qed.
+Print Assumptions C07_fault_exact.
+
+(* the same as a step of a history from a state of the invariant *)
+Theorem C07_fault_step : forall (HO : hops), hash_ok HO ->
+  forall (data : bytes HO) (bs : N), blen HO data <= 2 ^ 63 -> bs <= 10 ->
+  forall (q : ranges) (sf : sink_faults) (rest : bytes HO) (fsm : bool) (D : N -> bool) (t : bytes HO) (ob : outboard HO),
+  wf_ranges q = true -> Inv HO data bs D (t, ob) ->
+  let cut := fault_cut HO sf (honest HO data bs q) 0 0 in
+  let o := mkOp HO q (flat HO (honest HO data bs q) ++ rest) sf fsm in
+  is_prefix (fst cut) (honest HO data bs q) /\
+  apply_items HO (fst cut) t ob = (SOk, fst (hist_step HO (t, ob) o), snd (hist_step HO (t, ob) o)) /\
+  Inv HO data bs (fun c => D c || delivered HO (fst cut) c) (hist_step HO (t, ob) o) /\
+  (fsm = false -> fst (fst (fst (decode_ranges_f HO sf (flat HO (honest HO data bs q) ++ rest) q t ob))) =
+                  if snd cut then Err (DIo (sf_kind sf)) else Ok tt) /\
+  (fsm = true -> fst (fst (fst (decode_ranges_fsm_f HO sf (flat HO (honest HO data bs q) ++ rest) q t ob))) =
+                 if snd cut then Err (DIo (sf_kind sf)) else Ok tt).
+Proof. exact gaph_fault_step. Qed.
+Print Assumptions C07_fault_step.
+
+Theorem C07_fault_cut_nonvacuous :
+  exists (HO : hops) (data : bytes HO) (bs : N) (q : ranges) (sf : sink_faults),
+    hash_ok HO /\ blen HO data <= 2 ^ 63 /\ bs <= 10 /\ wf_ranges q = true /\
+    snd (fault_cut HO sf (honest HO data bs q) 0 0) = true /\
+    length (fst (fault_cut HO sf (honest HO data bs q) 0 0)) = 2%nat /\
+    length (honest HO data bs q) = 5%nat.
+Proof. exact gaph_fault_cut_nonvacuous. Qed.
+Print Assumptions C07_fault_cut_nonvacuous.
